@@ -264,14 +264,15 @@ def document(input_file: str, settings: Settings):
                         subdirs.remove(subdir)
 
                 # Check if files in current dir contain .cmake
-                # If not, ignore this dir and continue walking
+                # If not, there is nothing to document without recursion. With
+                # recursion the directory still gets its index.rst: the pages of
+                # its sub-directories would otherwise not be reachable from it
                 for filename in filenames:
                     if filename.endswith(".cmake"):
                         break
                 else:
                     if not recursive:
                         break
-                    continue
 
             # Sort filenames and subdirs in alphabetical order
             filenames = sorted(filenames)
